@@ -65,12 +65,17 @@ def check(spec):
             d["number"][ti] = elig * r["fraction"] / (dt if r["one_off"] else 1.0)
             if start <= t[ti] <= stop and 0 < r["fraction"] < 1:
                 feats.add("partial-coverage")
-    rep_alloc = res.get_alloc()
-    reported = {"spend": rep_alloc}
-    for quantity in ("capacity", "eligible", "fraction", "number"):
-        reported[quantity] = res.get_coverage(quantity)
+    # the reports are requested from the same Result in an order that varies from case to case, every quantity twice: what is
+    # reported must not depend on what was asked before (a report that caches or annualises in place shows on the second request)
+    import itertools, json, zlib
+
+    order = list(itertools.permutations(("spend", "capacity", "eligible", "fraction", "number")))[zlib.crc32(json.dumps(spec, sort_keys=True).encode()) % 120]
+    requests = []
+    for quantity in order + order[::-1]:
+        requests.append((quantity, res.get_alloc() if quantity == "spend" else res.get_coverage(quantity)))
+    feats.add("report-order:%s-first" % order[0])
     for q in progs:
-        for quantity, arrs in reported.items():
+        for quantity, arrs in requests:
             got = np.asarray(arrs[q["name"]], dtype=float)
             exp = mine[q["name"]][quantity]
             if got.shape != exp.shape:
